@@ -78,7 +78,7 @@ def app(name, *args, classical=True):
     cpp = "%s< %s >" % (name, ", ".join(a.cpp for a in args))
     sx = None
     if classical and all(a.sx is not None for a in args):
-        if name in ("seq", "sor"):
+        if name in ("seq", "sor") and len(args) >= 2:      # one-argument seq/sor is outside the classical fragment of the tie
             sx = "(%s %s)" % (name, " ".join(a.sx for a in args))
         elif name in ("star", "plus", "opt", "at", "not_at"):
             inner = args[0].sx if len(args) == 1 else "(seq %s)" % " ".join(a.sx for a in args)
@@ -189,13 +189,13 @@ def needs_named(t):
 
 
 def mk(gid, t, tags):
-    rules = [(n, e.cpp) for n, e in NAMED] if needs_named(t) else []
+    used = [(n, e) for n, e in NAMED if n in t.cpp]
+    rules = [(n, e.cpp) for n, e in used]
     surface = None
     if t.sx is not None:
         surface = {"G": t.sx}
-        if needs_named(t):
-            for n, e in NAMED:
-                surface[n] = e.sx
+        for n, e in used:
+            surface[n] = e.sx
     return Gram(gid, rules, t.cpp, tags=tags, surface=surface)
 
 
